@@ -43,6 +43,7 @@ type keyDesc struct {
 	field  int
 	elem   types.Type
 	global *ssa.Global
+	ghost  *PredDecl
 }
 
 func LoadProgram(repo string) (*Program, error) {
@@ -523,6 +524,9 @@ func (p *Program) KeyInfo(ex *Exec, name string) *HeapKey {
 		return ex.keyGlobal(d.global)
 	case 'X':
 		return ex.penKey()
+	case 'Z':
+		env := &CEnv{ex: ex, pkg: p.TypesPkg(d.ghost.PkgPath)}
+		return ex.ghostKey(d.ghost.Name, env.specType(d.ghost.ResType))
 	case 'L':
 		a, n := ex.logKeys(name[2:])
 		if name[0] == 'L' {
@@ -726,9 +730,82 @@ func (p *Program) directMods(f *ssa.Function) *funcMods {
 	return fm
 }
 
+// externDecl finds an `extern attr` / `extern func` declaration for a callee key in any package's contracts.
+func (p *Program) externDecl(key string) (bool, *FuncContract, *PkgContracts) {
+	var paths []string
+	for k := range p.contracts {
+		paths = append(paths, k)
+	}
+	sort.Strings(paths)
+	for _, k := range paths {
+		pc := p.contracts[k]
+		if pc == nil {
+			continue
+		}
+		if _, ok := pc.ExternAttr[key]; ok {
+			return true, nil, pc
+		}
+		if fc, ok := pc.ExternFuncs[key]; ok {
+			return false, fc, pc
+		}
+	}
+	return false, nil, nil
+}
+
+// externMods: a declared function outside the module changes only the ghost fields its `sets` clauses name.
+func (p *Program) externMods(fm *funcMods, fc *FuncContract, pc *PkgContracts, args []ssa.Value) {
+	if fc == nil {
+		return
+	}
+	var names []string
+	if m := externHdrRe.FindStringSubmatch(fc.Header); m != nil {
+		for _, prm := range strings.Split(m[1], ",") {
+			if f := strings.Fields(strings.TrimSpace(prm)); len(f) > 0 {
+				names = append(names, f[0])
+			}
+		}
+	}
+	for _, cl := range fc.Clauses {
+		switch cl.Kind {
+		case "modifies":
+			fm.ms.all = true // explicit modifies on a declared function: not analysed, forget everything
+		case "sets":
+			call := cl.Mods[0].(*ECall)
+			id, _ := call.Fun.(*EIdent)
+			if id == nil {
+				continue
+			}
+			pd := pc.Preds[id.Name]
+			if pd == nil {
+				pd = p.FindPred(id.Name)
+			}
+			if pd == nil {
+				continue
+			}
+			key := p.noteKey("Z:"+pd.Name, keyDesc{kind: 'Z', ghost: pd})
+			ri := rootInfo{key: key}
+			if obj, ok := call.Args[0].(*EIdent); ok {
+				for i, n := range names {
+					if n == obj.Name && i < len(args) {
+						ri.base = args[i]
+					}
+				}
+			}
+			p.addRoot(fm.ms, ri, nil, map[string]bool{})
+		}
+	}
+}
+
 func (p *Program) callMods(fm *funcMods, cc *ssa.CallCommon, paramIdx map[*ssa.Parameter]int) {
 	sx := p.scratch
 	if cc.IsInvoke() {
+		if named, ok := cc.Value.Type().(*types.Named); ok && named.Obj().Pkg() != nil {
+			key := named.Obj().Pkg().Path() + "." + named.Obj().Name() + "." + cc.Method.Name()
+			if attr, fc, pc := p.externDecl(key); attr || fc != nil {
+				p.externMods(fm, fc, pc, append([]ssa.Value{cc.Value}, cc.Args...))
+				return
+			}
+		}
 		if !sx.pureIfaceMethod(cc) {
 			fm.ms.all = true
 		}
@@ -754,6 +831,11 @@ func (p *Program) callMods(fm *funcMods, cc *ssa.CallCommon, paramIdx map[*ssa.P
 	}
 	if k, _ := sinkKind(callee); k == "write" || k == "printf" {
 		fm.ms.keys[p.noteKey("X:pen", keyDesc{kind: 'X'})] = true
+	}
+	if attr, fc, pc := p.externDecl(externKey(callee)); attr || fc != nil {
+		p.externMods(fm, fc, pc, cc.Args)
+		fm.ms.allocates = true
+		return
 	}
 	if !sx.W.inModule(pkgOf(callee)) || len(callee.Blocks) == 0 || opaquePkg(pkgOf(callee)) {
 		full := callee.String()
